@@ -311,6 +311,11 @@ def run(ctx, crate):
     rule_siblings(ctx, crate, rows)
     rule_constructors(ctx, crate)
     rule_rayon_shares_bar(ctx, crate)
+    rule_rayon_split_no_finish(ctx, crate)
+    # "... for every split of a parallel iterator across worker threads" (and clones used from several threads): the counting
+    # primitive the adaptors call is one atomic read-modify-write
+    from .c07 import rule_pos_atomic_rmw
+    rule_pos_atomic_rmw(ctx, crate)
     # "exhausting an iterator finishes the bar according to its finish behaviour" — every time, also after a reset
     from .c04 import rule_on_finish_writers
     rule_on_finish_writers(ctx, crate)
@@ -520,3 +525,52 @@ def rule_rayon_shares_bar(ctx, crate, rule="R-RAYON-SHARES-BAR"):
             ctx.check(ok, rule, "consumer-part:%s" % K.meth(b.name), b.name, c.loc(), "the new consumer receives the wrapper's own bar",
                       "a consumer part receives a different bar", cfg)
     ctx.floor(rule, n, 8, cfg, "rayon wrapper parts")
+
+
+def rule_rayon_split_no_finish(ctx, crate, rule="R-RAYON-SPLIT-NO-FINISH"):
+    """"for every split of a parallel iterator across worker threads": a rayon producer is split into parts that share one
+    bar; each part is iterated sequentially through the iterator type its `Producer::into_iter` returns. That iterator may
+    count, but it must not *finish* the bar when it runs out of items — the first part to be exhausted would finish the shared
+    bar (position := length for the finishing variants) while the other parts still count, and the final position is wrong.
+    Checked: no method of Iterator / DoubleEndedIterator / ExactSizeIterator implemented for the returned type can reach
+    BarState::finish_using_style (call graph, trait methods resolved)."""
+    cfg = crate.config
+    if "rayon" not in crate.features:
+        return
+    g = K.callgraph(crate)
+    fin = {n for n in g if re.fullmatch(r"state::BarState::finish_using_style|progress_bar::ProgressBar::(finish\w*|abandon\w*)", n)}
+    n = 0
+    for b in crate.bodies.values():
+        tr = (b.impl or {}).get("trait") or ""
+        if b.file != "src/rayon.rs" or not tr.startswith("rayon::iter::plumbing::Producer") or K.meth(b.name) != "into_iter":
+            continue
+        head = K.head_of_type(b.locals[0]["ty"])
+        meths = [m for m in crate.bodies.values() if (m.impl or {}).get("trait", "").startswith(("std::iter::Iterator", "std::iter::DoubleEndedIterator", "std::iter::ExactSizeIterator"))
+                 and K.head_of_type((m.impl or {}).get("self_ty", "") or "") == head and m.kind != "Closure"]
+        if not meths:
+            ctx.lost(rule, cfg, "no Iterator impl found for %s (returned by %s)" % (head, b.name))
+            continue
+        for m in meths:
+            n += 1
+            # (drop glue of the shared state is not a call this method makes: the Drop impl of BarState finishes the bar when
+            # the *last* handle goes away, which is the intended end of a parallel run)
+            # Calls on the wrapped iterator (a type parameter: `self.it.next()`) are not followed either - only calls the method
+            # itself resolves to a concrete crate function.
+            reach, work = set(), [m.name]
+            while work:
+                x = work.pop()
+                if x in reach or x not in crate.bodies:
+                    continue
+                reach.add(x)
+                xb = crate.bodies[x]
+                for c in xb.calls():
+                    if c.path in crate.bodies and c.callee.get("rk") != "unresolved":
+                        work.append(c.path)
+                for cb in crate.closures_of(x):
+                    work.append(cb.name)
+            hit = sorted(reach & fin)
+            ctx.check(not hit, rule, "split-iterator:%s::%s" % (head.rsplit("::", 1)[-1], K.meth(m.name)), m.name, K.fn_loc(m),
+                      "iterating one part of a split producer never finishes the shared bar",
+                      "the iterator handed to every part of a split rayon producer (%s) finishes the bar when that part runs out (%s): the first exhausted part sets the shared "
+                      "position to the length while the other parts still count - `par_iter().progress().rev()/.zip(..)/.chunks(..)` end near 2 x len" % (head, K.meth(hit[0]) if hit else ""), cfg)
+    ctx.floor(rule, n, 2, cfg, "iterator methods of the type handed to rayon splits")
